@@ -74,34 +74,34 @@ class O2JMap(Map[O2JNoteList, O2JHitList, O2JHoldList, O2JBpmList]):
 
         bpms = [e for e in events if isinstance(e, O2JBpm)]
 
-        offset = 0
-        measure = 0
-        bpm_ix = -1
+        offset = 0.0
+        measure = 0.0
+        bpm_ix = 0
         bpm_val = init_bpm
 
-        next_bpm_measure = bpms[0].measure if len(bpms) > 0 else None
-        for note_measure in note_measures:
-            if not next_bpm_measure:
-                while note_measure > next_bpm_measure:
-                    bpm_ix += 1
-                    bpm = bpms[bpm_ix]
-                    # Update offset
-                    offset += RAConst.min_to_msec((bpm.measure - measure) * 4 / bpm_val)
-                    bpm.offset = offset
-                    measure = bpm.measure
-                    bpm_val = bpm.bpm
+        def advance_bpm():
+            # Moves the sweep onto bpms[bpm_ix]: it starts where the previous tempo has brought us
+            nonlocal offset, measure, bpm_ix, bpm_val
+            bpm = bpms[bpm_ix]
+            offset += RAConst.min_to_msec((bpm.measure - measure) * 4 / bpm_val)
+            bpm.offset = offset
+            measure = bpm.measure
+            bpm_val = bpm.bpm
+            bpm_ix += 1
 
-                    # Check if next one is available
-                    if bpm_ix + 1 == len(bpms):
-                        next_bpm_measure = None
-                        break
-                    else:
-                        next_bpm_measure = bpm.measure
+        for note_measure in note_measures:
+            # Every tempo event at or before this measure takes effect first
+            while bpm_ix < len(bpms) and bpms[bpm_ix].measure <= note_measure:
+                advance_bpm()
 
             # We add it into the measure: offset dictionary.
             note_measure_dict[note_measure] = offset + RAConst.min_to_msec(
                 4 * (note_measure - measure) / bpm_val
             )
+
+        # Tempo events after the last note still need their offsets
+        while bpm_ix < len(bpms):
+            advance_bpm()
 
         # We then assign all the offsets here
         for note in notes:
